@@ -63,14 +63,11 @@ func IsClosedQueue(err error) bool {
 // Insert adds i to the queue and returns true if i does not already exist.
 // Insert returns an error if the Queue has been closed.
 func (q *Queue) Insert(i interface{}) (bool, error) {
-	select {
-	case <-q.closed:
-		return false, errClosedQueue
-	default:
-	}
-
 	verifPoint("coalesce.insert.checked", q)
-	ok := q.insert(i)
+	ok, err := q.insert(i)
+	if err != nil {
+		return false, err
+	}
 
 	if ok {
 		select {
@@ -82,17 +79,25 @@ func (q *Queue) Insert(i interface{}) (bool, error) {
 	return ok, nil
 }
 
-func (q *Queue) insert(i interface{}) bool {
+func (q *Queue) insert(i interface{}) (bool, error) {
 	defer q.Unlock()
 	q.Lock()
 
+	// Close takes the same lock: an insertion is either refused or it is in
+	// the queue before the queue is closed, and then delivered.
+	select {
+	case <-q.closed:
+		return false, errClosedQueue
+	default:
+	}
+
 	if _, ok := q.coalesced[i]; ok {
 		q.coalesced[i]++
-		return false
+		return false, nil
 	}
 	q.queue = append(q.queue, i)
 	q.coalesced[i] = 0
-	return true
+	return true, nil
 }
 
 // Next returns the next item in the queue and the number of duplicates that
